@@ -20,7 +20,9 @@ def parse_spot(
     **kwargs: Any,
 ) -> Tensor:
     spot = _as_optional_tensor(spot)
-    strike = _as_optional_tensor(strike)
+    # A Python number is used as it is: converting it through the default dtype
+    # would round e.g. 1.1 to float32 before it meets float64 inputs.
+    strike = strike if isinstance(strike, Real) else _as_optional_tensor(strike)
     moneyness = _as_optional_tensor(moneyness)
     log_moneyness = _as_optional_tensor(log_moneyness)
 
